@@ -139,7 +139,57 @@ def panic_census(c, facts):
                                                                 'top': sorted(out.items(), key=lambda x: -x[1])[:25]}
 
 
+def r4_memo_total(c, facts, rule='C04.R4'):
+    import c12
+    import mirflow as MF
+    import pathrules as P
+    R = c.rule(rule, 'MEMO-TOTAL: failed productions are memoised too, so erroneous nested input cannot make the parser hang (shared with C12.R2)')
+    fn = c.anchor(R, 'oal_model::grammar::memoize')
+    ch = P.call_blocks(fn, 'Context::cache')
+    indirect = [(b, t) for b, t in fn.calls() if callee_of(t) is None]
+    if not ch or not indirect:
+        c.bad(R, 'memoize-shape', 'memoize no longer calls the production and stores its result')
+        return
+    c12.memo_total(c, R, fn, indirect[0][0], indirect[0][1], ch)
+
+
+def r5_status_conv(c, facts, rule='C04.R5'):
+    import pathrules as P
+    R = c.rule(rule, 'STATUS-CONV: the numeric status conversion checks the range before any narrowing conversion')
+    fn = None
+    for f in facts.fns.values():
+        if 'HttpStatus as std::convert::TryFrom<u64>>::try_from' in f.qname:
+            fn = f
+    if fn is None:
+        c.bad(R, 'anchor-missing:HttpStatus::try_from', 'HttpStatus::try_from(u64) not found')
+        return
+    cont = P.call_blocks(fn, 'RangeInclusive::contains')
+    if not cont:
+        c.bad(R, 'no-range-check', 'HttpStatus::try_from no longer checks the range')
+        return
+    sw = fn.mir['blocks'][cont[0][1]['target']]['term']
+    if sw['t'] != 'switch':
+        c.skip(R, 'try_from', 'range check result not branched on directly')
+        return
+    t_true = sw['otherwise']
+    n = 0
+    for b, t in fn.calls():
+        info = callee_of(t)
+        if not info or b == cont[0][0]:
+            continue
+        d = P.strip(info['def'])
+        if PANIC.search(info['def']) or d.endswith('new_unchecked') or d.endswith('try_into') or d.endswith('TryFrom::try_from'):
+            n += 1
+            if fn.dominates(t_true, b):
+                c.ok(R, {'conversion': d.split('::')[-1], 'after_range_check': True})
+            else:
+                c.bad(R, 'conversion-before-range-check:%s' % d.split('::')[-1], 'HttpStatus::try_from performs %s before (or without) the 100..=599 check: a large status number panics instead of producing a diagnostic (%s:%s)' % (d.split('::')[-1], fn.file, t['ln']))
+    c.floor(R, 'narrowing conversions in HttpStatus::try_from', n, 2)
+
+
 def run(c, facts):
+    c.run(r4_memo_total, facts)
+    c.run(r5_status_conv, facts)
     c.run(r1_text_panic, facts)
     c.run(lambda c: I.tag_rec(c, facts, c.rule('C04.R2', 'TAG-REC: occurs/unify/reduce cover every Tag variant that nests tags (finite types only)')))
     c.run(lambda c: I.occurs_before_union(c, facts, c.rule('C04.R3', 'occurs() dominates every union() on its false edge')))
